@@ -301,6 +301,107 @@ def ob_mul_add_small(cx, nl, base, timeout_ms):
 
 
 
+# ------------------------------------------------------------------------------------------------ integer -> decimal text
+def ob_div_small(cx, nl, timeout_ms):
+    """one step of the integer->text conversion from an arbitrary limb state: ferret_div_small_limbs(val, out, n, 10)
+    returns val mod 10 and writes val div 10 (128-bit udiv/urem by the division identity, see llvm.py axiom_div)."""
+    ex, solver = mk_exec(cx, timeout_ms)
+    ex.axiom_div = True
+    st = ex.new_state()
+    V = [z3.BitVec('v%d' % i, 64) for i in range(nl)]
+    rv = put(st, 'v', V)
+    ro = st.mem.alloc(8 * nl, name='out', kind='heap')
+    outs = ex.run('@ferret_div_small_limbs', [st.mem.ptr(rv), st.mem.ptr(ro), bv(nl, 32), bv(10, 32)], st=st)
+    cx.funcs |= ex.encoded
+    bits = 64 * nl
+    x = val(V)
+    wide = lambda t, k: z3.ZeroExt(k, t)
+    for o in outs:
+        if o.kind != 'ret' or o.ret is None:
+            return 'violation', {'what': 'path ends with %s: %s' % (o.kind, o.detail)}, len(outs)
+        q = o.mem.load(o.state, o.mem.ptr(ro), 8 * nl)
+        rem = o.ret
+        # q*10 + rem == x without wrap-around (one extra limb of width), rem < 10
+        bad = z3.Or(z3.UGE(rem, bv(10, 32)), wide(q, 64) * bv(10, bits + 64) + wide(rem, bits + 32) != wide(x, 64))
+        r, m = solver.check(list(o.pc) + [bad])
+        if r == 'unknown':
+            return 'unknown', None, len(outs)
+        if r == 'sat':
+            vv = model_ints(m, V)
+            return 'violation', {'what': 'div_small_limbs: quotient*10 + remainder differs from the value, or remainder >= 10', 'v': vv, 'replay': replay_div_small(nl, vv)}, len(outs)
+    return 'held', None, len(outs)
+
+
+def _read_cstr(o, ptr, maxlen):
+    """bytes of the C string at ptr (list of 8-bit terms, up to maxlen)"""
+    out = []
+    for k in range(maxlen):
+        try:
+            out.append(o.mem.load(o.state, ptr + bv(k, 64), 1))
+        except Exception:
+            break       # end of the allocated object: the text (with its NUL) must fit in what is there
+    return out
+
+
+def ob_to_string(cx, T, ndig, neg, timeout_ms):
+    """ferret_<T>_to_string_ptr on every value with at most ndig decimal digits (|value| < 10^ndig; negative values for
+    the signed types when neg): the returned C string is the decimal text - optional '-', digits most significant
+    first, no leading zero, NUL terminated.  Digits of the reference are computed by 32-bit udiv/urem on the (small)
+    magnitude."""
+    nl, signed = TYPES[T]
+    N = 64 * nl
+    ex, solver = mk_exec(cx, timeout_ms, unroll=ndig + 4)
+    ex.axiom_div = True
+    st = ex.new_state()
+    A = [z3.BitVec('a%d' % i, 64) for i in range(nl)]
+    ra = put(st, 'a', A)
+    x = val(A)
+    lim = 10 ** ndig
+    if neg:
+        mag = -x
+        pre = z3.And(x < 0, x > bv(-lim, N))
+    else:
+        mag = x
+        pre = z3.ULT(x, bv(lim, N))
+    outs = ex.run('@ferret_%s_to_string_ptr' % T, [st.mem.ptr(ra)], pre=pre, st=st)
+    cx.funcs |= ex.encoded
+    m32 = z3.Extract(31, 0, mag)
+    paths = len(outs)
+    seen_ret = False
+    for o in outs:
+        r, _ = solver.check(list(o.pc))
+        if r == 'unsat':
+            continue
+        if o.kind != 'ret' or o.ret is None:
+            return 'violation', {'what': 'path ends with %s: %s' % (o.kind, o.detail)}, paths
+        seen_ret = True
+        chars = _read_cstr(o, o.ret, ndig + 2)
+        # expected text for each possible digit count k = 1..ndig
+        conds = []
+        for k in range(1, ndig + 1):
+            lo = 0 if k == 1 else 10 ** (k - 1)
+            inrange = z3.And(z3.UGE(m32, bv(lo, 32)), z3.ULT(m32, bv(10 ** k, 32)))
+            exp = ([bv(ord('-'), 8)] if neg else [])
+            for j in range(k):
+                dj = z3.URem(z3.UDiv(m32, bv(10 ** (k - 1 - j), 32)), bv(10, 32))
+                exp.append(z3.Extract(7, 0, dj) + bv(ord('0'), 8))
+            exp.append(bv(0, 8))
+            if len(exp) > len(chars):
+                conds.append(z3.Not(inrange))      # the object is too short for this value's text
+            else:
+                conds.append(z3.Implies(inrange, z3.And(*[chars[i] == exp[i] for i in range(len(exp))])))
+        r, m = solver.check(list(o.pc) + [z3.Not(z3.And(*conds))])
+        if r == 'unknown':
+            return 'unknown', None, paths
+        if r == 'sat':
+            av = model_ints(m, A)
+            got = ''.join(chr(m.eval(c, model_completion=True).as_long()) for c in chars) + '\x00'
+            return 'violation', {'what': 'to_string text differs from the decimal representation', 'a': av, 'text_prefix': got.split('\x00')[0], 'replay': replay_to_string(T, av)}, paths
+    if not seen_ret:
+        return 'violation', {'what': 'to_string never returns for the values of the bound'}, paths
+    return 'held', None, paths
+
+
 # ------------------------------------------------------------------------------------------------ division: loop induction
 def _succ_labels(blk):
     t = blk.instrs[-1]
@@ -850,6 +951,29 @@ def ob_pow_loop(cx, T, timeout_ms, uf=None):
     return 'held', None, paths
 
 
+def replay_div_small(nl, v):
+    body = '''#include <stdio.h>
+#include "../core/bigint.c"
+int main(void) { ferret_limb_t v[%(nl)d] = %(v)s, q[%(nl)d]; uint32_t r = ferret_div_small_limbs(v, q, %(nl)d, 10u);
+  for (int i = %(nl)d - 1; i >= 0; i--) printf("%%016llx", (unsigned long long)q[i]); printf(" %%u\\n", r); return 0; }''' % {'nl': nl, 'v': _limbs_c(v)}
+    rc, so, se = cir.run_c_driver('dsm', body, [])
+    x = sum(l << (64 * i) for i, l in enumerate(v))
+    want = '%0*x %d' % (16 * nl, x // 10, x % 10)
+    return {'native': so.strip(), 'expected': want, 'reproduced': rc != 0 or so.strip() != want, 'rc': rc, 'stderr': se[-300:]}
+
+
+def replay_to_string(T, a):
+    nl, signed = TYPES[T]
+    body = '''#include <stdio.h>
+#include "bigint.h"
+int main(void) { ferret_%(T)s a = {%(a)s}; char* s = ferret_%(T)s_to_string_ptr(&a); printf("%%s\\n", s ? s : "(null)"); return 0; }''' % {'T': T, 'a': _limbs_c(a)}
+    rc, so, se = cir.run_c_driver('tostr', body, ['core/bigint.c'])
+    x = sum(l << (64 * i) for i, l in enumerate(a))
+    if signed:
+        x = to_signed(x, 64 * nl)
+    return {'native': so.strip(), 'expected': str(x), 'reproduced': rc != 0 or so.strip() != str(x), 'rc': rc, 'stderr': se[-300:]}
+
+
 def replay_pow(T, base, e, exp):
     nl = TYPES[T][0]
     body = '''#include <stdio.h>
@@ -939,6 +1063,10 @@ def _job(args):
             r = ob_cmp_u(cx, args[1], args[2])
         elif kind == 'negate':
             r = ob_negate(cx, args[1], args[2])
+        elif kind == 'divsmall':
+            r = ob_div_small(cx, args[1], args[2])
+        elif kind == 'tostr':
+            r = ob_to_string(cx, args[1], args[2], args[3], args[4])
         elif kind == 'powloop':
             r = ob_pow_loop(cx, args[1], args[2])
         elif kind == 'divwrap':
@@ -994,6 +1122,13 @@ def main():
             jobs.append(('divwrap', T, op, tmo))
     for T in TYPES:
         jobs.append(('powloop', T, tmo))
+    for nl in (2, 4):
+        jobs.append(('divsmall', nl, tmo))
+    for T in TYPES:
+        nd = 2 if tier_ == 'quick' else 4
+        jobs.append(('tostr', T, nd, False, tmo))
+        if TYPES[T][1]:
+            jobs.append(('tostr', T, nd, True, tmo))
     digs = {'quick': {'u128': [1, 4], 'i128': [3], 'u256': [2], 'i256': [3]},
             'thorough': {'u128': [1, 3, 5], 'i128': [3, 5], 'u256': [2, 5], 'i256': [3, 5]}}[tier_]   # 8 digits: solver unknown at the cap
     for T, ls in digs.items():
@@ -1033,9 +1168,9 @@ def main():
            'obligations': len(jobs), 'obligations_held': sum(1 for r in results if r['status'] == 'held'), 'obligation_table': rows,
            'functions_encoded': sorted(funcs), 'llvm_instructions_executed': agg.instrs, 'queries': agg.queries, 'queries_unsat': agg.unsat,
            'queries_sat': agg.sat, 'queries_unknown': agg.unknown, 'solver_s': round(agg.solver_s, 2),
-           'bounds': 'all limb values (2^128 / 2^256 operand spaces) for add sub and or xor not eq lt gt from/to 64; mul for 128-bit types; mul by schoolbook identity over uninterpreted 64x64->128 products (range-constrained); decimal from_string for the digit counts listed in obligation_table (every digit symbolic) plus ONE INDUCTIVE STEP of the accumulation (ferret_mul_add_small from an arbitrary limb state, bases 10/16/8/2), which covers texts of any length given that parse_uint only iterates that step; div/mod: INIT / STEP / EXIT obligations on the real shift-subtract loop of ferret_div_mod_u_limbs (one iteration from an arbitrary state satisfying rem < denom and rem <= numer >> (bit+1), bit symbolic in [0,N)), for 2 and 4 limbs, over contracts for is_zero / cmp_u / sub / negate that are discharged by their own obligations, plus the eight div/mod entry points over the contract of the divider (signed = SMT-LIB bvsdiv/bvsrem definition); 256-bit pow: INIT / STEP / EXIT on the real square-and-multiply loop over the contract of the type\'s multiply (one iteration from an arbitrary (result, base, e != 0)); limb loops fully unrolled',
+           'bounds': 'all limb values (2^128 / 2^256 operand spaces) for add sub and or xor not eq lt gt from/to 64; mul for 128-bit types; mul by schoolbook identity over uninterpreted 64x64->128 products (range-constrained); decimal from_string for the digit counts listed in obligation_table (every digit symbolic) plus ONE INDUCTIVE STEP of the accumulation (ferret_mul_add_small from an arbitrary limb state, bases 10/16/8/2), which covers texts of any length given that parse_uint only iterates that step; div/mod: INIT / STEP / EXIT obligations on the real shift-subtract loop of ferret_div_mod_u_limbs (one iteration from an arbitrary state satisfying rem < denom and rem <= numer >> (bit+1), bit symbolic in [0,N)), for 2 and 4 limbs, over contracts for is_zero / cmp_u / sub / negate that are discharged by their own obligations, plus the eight div/mod entry points over the contract of the divider (signed = SMT-LIB bvsdiv/bvsrem definition); 256-bit pow: INIT / STEP / EXIT on the real square-and-multiply loop over the contract of the type\'s multiply (one iteration from an arbitrary (result, base, e != 0)); integer -> decimal text: ferret_<T>_to_string_ptr on every value of at most 2 (4 thorough) decimal digits incl. negative ones (text compared byte by byte, NUL included, object size respected) + one step of the digit extraction (ferret_div_small_limbs, divisor 10) from an arbitrary limb state for 2 and 4 limbs, with 128-bit udiv / urem encoded by the division identity a = q*b + r, r < b at double width; pow for all four types: bit-vector multiply first, uninterpreted commutative multiply if the solver does not finish; limb loops fully unrolled',
            'explanation': 'The clang -O0 LLVM IR of runtime/core/bigint.c is executed symbolically from the *_ptr entry points the compiler calls, operands are regions of symbolic 64-bit limbs, and z3 decides equality with bit-vector arithmetic at width N. Counterexamples are replayed through a C driver built with ASan/UBSan.',
-           'not_covered': 'to_string and 128-bit pow (by-value register ABI of the 128-bit multiply; not built); pow: the textbook induction (result * base^e invariant) is a paper argument; division by zero (excluded by assume: the wrappers return 0); the textbook induction that turns INIT/STEP/EXIT into quot = numer div denom is a paper argument; 256-bit mul (solver unknown at the 600 s cap, not registered) and the 256-bit signed multiply wrapper; the 128-bit signed wrapper is decided in the thorough tier only, shifts (no *_ptr entry point), whole-function hex/octal/binary from_string (their accumulation step is covered)'}
+           'not_covered': 'to_string for values with more decimal digits than the bound in obligation_table (2 quick / 4 thorough): covered only through the one-step obligation on ferret_div_small_limbs from an arbitrary limb state (val = 10*quot + rem, rem < 10) that the digit loop iterates; pow: the textbook induction (result * base^e invariant) is a paper argument; division by zero (excluded by assume: the wrappers return 0); the textbook induction that turns INIT/STEP/EXIT into quot = numer div denom is a paper argument; 256-bit mul (solver unknown at the 600 s cap, not registered) and the 256-bit signed multiply wrapper; the 128-bit signed wrapper is decided in the thorough tier only, shifts (no *_ptr entry point), whole-function hex/octal/binary from_string (their accumulation step is covered)'}
     sys.exit(rep.finish(cov, ['clang-14 front end: -O0 IR is the source statement by statement; optimiser/code generator of the C compiler that builds libferret_runtime.a are trusted',
                               'LLVM semantics in lirsym/llvm.py (nsw/nuw ignored = wrapping); libc summaries malloc/free/memcpy/memset/strlen',
                               'z3 bit-vector theory; per-obligation timeout, unknown = inconclusive']))
